@@ -174,7 +174,7 @@ Definition median_post (ws : list Z) (mn mx : Z) (p : nat) (w : Z) : Prop :=
   p < length ws /\ w = pre ws p
   /\ ((mn <= w <= mx)%Z \/ ((w < mn)%Z /\ (S p = length ws \/ (mx < pre ws (S p))%Z))).
 
-Lemma median_loop_spec c T ws mn mx : (mn <= mx)%Z ->
+Lemma median_loop_spec c T ws mn mx : (mn <= mx + 1)%Z ->
   forall fuel min max lw p w,
   loop_inv ws mn mx min max lw ->
   median_loop c fuel T ws mn mx min max lw = Ok (p, w) ->
@@ -202,7 +202,7 @@ Qed.
 
 (* no panic, no fuel exhaustion: the search returns when the chunk count is at
    least 2 and the least chunk size is 1, whatever the pool size *)
-Lemma median_loop_total c T ws mn mx : (mn <= mx)%Z ->
+Lemma median_loop_total c T ws mn mx : (mn <= mx + 1)%Z ->
   2 <= min_chunks c -> min_chunk_size c = 1 ->
   forall fuel min max lw,
   loop_inv ws mn mx min max lw ->
@@ -264,4 +264,66 @@ Proof.
   replace (0 + 0 * length ws) with 0 by lia.
   destruct (Nat.leb_spec (length ws) (0 + 1)) as [|_]; [lia|].
   exact IH.
+Qed.
+
+(* ---------- weighted_median: thresholds + loop ---------- *)
+
+(* the facts about the two f64 thresholds that the balance statement uses
+   (decidable; established in Proofs/GridRcbThresholds.v) *)
+Definition thr_ok_b (fw : bool) (tolb : N) (tot : Z) : bool :=
+  let '(mn, mx) := thresholds fw tolb tot in
+  ((0 <=? mx) && (mn <=? mx + 1)
+   && (2 * mn <=? tot + 1) && (tot <=? 2 * mx + 1)
+   && (99 * tot - 200 <=? 200 * mn) && (200 * mx <=? 101 * tot + 200))%Z.
+
+Lemma thr_ok_b_spec fw tolb tot mn mx :
+  thresholds fw tolb tot = (mn, mx) -> thr_ok_b fw tolb tot = true ->
+  (0 <= mx /\ mn <= mx + 1 /\ 2 * mn <= tot + 1 /\ tot <= 2 * mx + 1
+   /\ 99 * tot - 200 <= 200 * mn /\ 200 * mx <= 101 * tot + 200)%Z.
+Proof. unfold thr_ok_b. intros ->. intros H. lia. Qed.
+
+Lemma weighted_median_spec c fuel T fw ws tot mn mx p w :
+  thresholds fw (tol_bits c) tot = (mn, mx) -> (0 <= mx)%Z -> (mn <= mx + 1)%Z -> ws <> [] ->
+  weighted_median c fuel T fw ws tot = Ok (p, w) ->
+  median_post ws mn mx p w.
+Proof.
+  intros Ht H0 Hmm Hne. unfold weighted_median. rewrite Ht.
+  apply median_loop_spec; [exact Hmm|].
+  unfold loop_inv. rewrite pre_0. destruct ws; [congruence|]. cbn [length]. repeat split; auto; lia.
+Qed.
+
+Lemma weighted_median_total c fuel T fw ws tot mn mx :
+  thresholds fw (tol_bits c) tot = (mn, mx) -> (0 <= mx)%Z -> (mn <= mx + 1)%Z -> ws <> [] ->
+  2 <= min_chunks c -> min_chunk_size c = 1 -> length ws < 2 ^ fuel ->
+  exists p w, weighted_median c fuel T fw ws tot = Ok (p, w).
+Proof.
+  intros Ht H0 Hmm Hne Hc Hs Hf. unfold weighted_median. rewrite Ht.
+  apply median_loop_total; auto; [|lia].
+  unfold loop_inv. rewrite pre_0. destruct ws; [congruence|]. cbn [length]. repeat split; auto; lia.
+Qed.
+
+(* the property's reading of a returned cut: the low side is within 1% of half
+   the weight (plus one unit), or slab [p] strictly contains the half-weight mark *)
+Definition bal_strong (tot wl sr sl : Z) : Prop :=
+  (100 * Z.abs (2 * wl - tot) <= tot + 200 \/ (2 * wl < tot <= 2 * (wl + sr)))%Z.
+
+Lemma bal_strong_prop tot wl sr sl : bal_strong tot wl sr sl -> bal_prop tot wl sr sl.
+Proof. unfold bal_strong, bal_prop. lia. Qed.
+
+Lemma median_post_balanced fw tolb ws tot mn mx p w :
+  thresholds fw tolb tot = (mn, mx) -> thr_ok_b fw tolb tot = true ->
+  tot = sumZ ws -> (0 <= tot)%Z ->
+  median_post ws mn mx p w ->
+  exists s, nth_opt ws p = Some s /\ bal_strong tot w s 0.
+Proof.
+  intros Ht Hok Htot Hnn (Hp & Hw & Hb).
+  destruct (thr_ok_b_spec _ _ _ _ _ Ht Hok) as (H0 & H1 & H2 & H3 & H4 & H5).
+  destruct (pre_S ws p Hp) as (s & Hs & Hpre).
+  exists s. split; [exact Hs|]. unfold bal_strong.
+  destruct Hb as [Hb|(Hlt & Hb)]; [left; lia|].
+  right. destruct Hb as [Hb|Hb].
+  - (* last slab: everything above the cut *)
+    assert (pre ws (S p) = sumZ ws) by (unfold pre; rewrite Hb, firstn_all; reflexivity).
+    lia.
+  - lia.
 Qed.
